@@ -40,25 +40,10 @@ theorem blkMasterInfo_isSome (sp : Bool) (b : Bits) (r : List Tlb.Cell) :
         · have h4 : b.length - 352 < 256 := by omega
           simp [h, h1, h2, h3, h4, loadBits_eq]
 
-/-- the text of the `^[…]` group of the regenerated `ShardStateUnsplit` (Generated/LocateSrc.lean) -/
+/-- the `^[…]` group of the regenerated `ShardStateUnsplit` as the translator emits it (its own definition `SrcLoc.ShardStateUnsplit_group`),
+called as the parser calls it: on `ref = cell_slice.load_ref().begin_parse()` with the six `None` defaults -/
 def groupExpr (c12 : Tlb.Cell) : Option (Val × Val × Val × Val × Val × Val × Frag) :=
-  let r13 := Rd.beginParse c12
-  let sl_ref := r13
-  let t14 := Val.unit
-  let t15 := Val.unit
-  let t16 := Val.unit
-  let t17 := Val.unit
-  let t18 := Val.unit
-  let t19 := Val.unit
-  (if (!(Rd.special c12)) then do
-          let (t20, sl_ref) ← Rd.loadUint 64 sl_ref
-          let (t21, sl_ref) ← Rd.loadUint 64 sl_ref
-          let (t22, sl_ref) ← SrcTx.CurrencyCollection (Rd.special c12) sl_ref
-          let (t23, sl_ref) ← SrcTx.CurrencyCollection (Rd.special c12) sl_ref
-          let (t24, sl_ref) ← Rd.loadDictRaw 256 sl_ref
-          let (t25, sl_ref) ← Rd.optional sl_ref (Src.BlkMasterInfo (Rd.special c12))
-          pure (t20, t21, t22, t23, t24, t25, sl_ref)
-        else pure (t14, t15, t16, t17, t18, t19, sl_ref))
+  SrcLoc.ShardStateUnsplit_group c12 (Rd.beginParse c12) .unit .unit .unit .unit .unit .unit
 
 theorem optional_master_isSome (sp : Bool) (s : PSlice) :
     (Rd.optional (psliceFrag s) (Src.BlkMasterInfo sp)).isSome =
@@ -74,7 +59,7 @@ theorem optional_master_isSome (sp : Bool) (s : PSlice) :
 
 theorem group_isSome (grp : PCell) : (groupExpr (tcell grp)).isSome = stateRefGroup grp := by
   obtain ⟨gi, gr⟩ := grp
-  simp only [groupExpr, tcell_mk, Rd.special, Rd.beginParse, Tlb.Cell.exotic, Tlb.Cell.bits, Tlb.Cell.refs, stateRefGroup, PCell.info,
+  simp only [groupExpr, SrcLoc.ShardStateUnsplit_group, tcell_mk, Rd.special, Rd.beginParse, Tlb.Cell.exotic, Tlb.Cell.bits, Tlb.Cell.refs, stateRefGroup, PCell.info,
     PCell.refs]
   by_cases hk : gi.kind = -1
   · simp only [hk, bne_self_eq_false, Bool.not_false, if_true, ne_eq, not_true_eq_false, if_false, loadUint_eq 64 (by decide)]
@@ -108,5 +93,29 @@ theorem group_isSome (grp : PCell) : (groupExpr (tcell grp)).isSome = stateRefGr
   · have hb : (gi.kind != -1) = true := by simpa using hk
     simp [hb, hk]
 
+
+theorem bind_ite_none {α β : Type} (c : Prop) [Decidable c] (y : Option α) (k : α → Option β) :
+    Option.bind (if c then none else y) k = if c then none else Option.bind y k := by
+  split <;> rfl
+
+theorem bp_mk (e : Bool) (b : Bits) (r : List Tlb.Cell) : Rd.beginParse (Tlb.Cell.mk e b r) = ⟨b, r⟩ := rfl
+theorem sp_mk (e : Bool) (b : Bits) (r : List Tlb.Cell) : Rd.special (Tlb.Cell.mk e b r) = e := rfl
+
+/-- the value `load_bit()` returns -/
+def bitVal (b : Bits) : Val := .int (if b.headD false then 1 else 0)
+
+theorem loadBit_eq (b : Bits) (r : List Tlb.Cell) :
+    Rd.loadBit ⟨b, r⟩ = if b.length < 1 then none else some (bitVal b, ⟨b.drop 1, r⟩) := by
+  cases b <;> simp [Rd.loadBit, bitVal]
+
+theorem locate_short (st : PCell) (addr : Bytes) (h : st.info.bits.length < 361) : locateAccount srcOpaque st addr = none := by
+  unfold locateAccount
+  by_cases hk : st.info.kind = -1 <;> simp [hk, h]
+
+theorem locate_badident (st : PCell) (addr : Bytes) (h : (st.info.bits.drop 64).take 2 ≠ [false, false]) :
+    locateAccount srcOpaque st addr = none := by
+  unfold locateAccount
+  by_cases hk : st.info.kind = -1 <;> by_cases h1 : st.info.bits.length < 361 <;>
+    by_cases h2 : st.info.bits.take 32 = shardStateTag <;> simp [hk, h, h1, h2]
 
 end TonVerif.Proofs.SrcLocate
